@@ -2,6 +2,7 @@
 C08 - listing and dry-run modes tell the truth.  Static: effect analysis over the call graph + sibling cross-check.
 """
 import ast
+import re
 
 from nvsa import effects, pyfront, reach
 from nvsa.report import AnalysisError
@@ -421,7 +422,22 @@ def rule_input_closure(ctx, px):
                         reaches_deps = True
                     work.append(g)
     if not feeds:
-        raise AnalysisError("anchor missing: _list_inputs_only no longer enumerates get_all_types/get_all_datatypes")
+        # a new enumeration: acceptable only as a thin wrapper of the enumerations the generator itself iterates
+        ns_cls = px.cls("nunavut._namespace", "Namespace")
+        used = sorted({c.func.attr for c in ast.walk(li.node) if isinstance(c, ast.Call) and isinstance(c.func, ast.Attribute) and c.func.attr in ns_cls.methods
+                       and c.func.attr.startswith("get_all")})
+        wrapped = False
+        for u in used:
+            body_attrs = {a.attr for a in ast.walk(ns_cls.methods[u].node) if isinstance(a, ast.Attribute)}
+            wrapped = wrapped or bool(body_attrs & {"get_all_types", "get_all_datatypes"})
+        if not used:
+            raise AnalysisError("anchor missing: _list_inputs_only no longer enumerates get_all_types/get_all_datatypes")
+        ctx.ob(R, li.module.rel, f"{li.short}: DSDL inputs are enumerated by the traversal the generator iterates (get_all_types / get_all_datatypes)", wrapped,
+               "" if wrapped else f"the files are enumerated by {used}, a traversal of its own: whatever it skips (a namespace without definitions of its own, and everything "
+               "below it) is generated by DSDLCodeGenerator.generate_all but never named as an input", li.node.lineno)
+        if not wrapped:
+            return
+        feeds = used
     ctx.ob(R, li.module.rel, f"{li.short}: DSDL inputs from {sorted(set(feeds))}", reaches_deps,
            "" if reaches_deps else "only the root namespace's own types are enumerated; dependencies found through "
            "--lookup-dir (whose content shapes the generated code) are never listed", li.node.lineno)
@@ -502,6 +518,24 @@ def _injective(e, var):
     return False
 
 
+def _words(txt):
+    """the variables an expression speaks about (enumeration constants in capitals are values, not variables)"""
+    return {w.strip("_") for w in re.findall(r"[A-Za-z_][A-Za-z_0-9]*", txt) if not re.fullmatch(r"[A-Z][A-Z0-9_]*", w)}
+
+
+def _creation_words(cls, ld):
+    """identifiers of the conditions under which __init__ gives self.<ld> a loader object"""
+    init = cls.methods.get("__init__")
+    out = set()
+    if init is None:
+        return out
+    for st, g in pyfront.walk_guarded(init.node.body):
+        if isinstance(st, ast.Assign) and any(ast.unparse(t_) == f"self.{ld}" for t_ in st.targets) and not (isinstance(st.value, ast.Constant) and st.value.value is None):
+            for t_, _p in g:
+                out |= _words(ast.unparse(t_))
+    return out
+
+
 def rule_loader_enumeration(ctx, px):
     R = "R-C08-LOADER-ENUM"
     ctx.rule(
@@ -512,6 +546,45 @@ def rule_loader_enumeration(ctx, px):
         "SupportGenerator.generate_all reads exactly the resources SupportGenerator.get_templates lists",
     )
     f = px.func(LOADERS_MOD, "DSDLTemplateLoader.get_templates")
+    # whatever loader get_source may read from is enumerated whenever it exists: the enumeration of a loader's templates is guarded by
+    # nothing but `<that loader> is not None` (a search policy may decide who wins a name, never who is listed - a template found
+    # through the fallback loader is read but would not be named)
+    gs = px.func(LOADERS_MOD, "DSDLTemplateLoader.get_source")
+    consulted = sorted({c.func.value.attr for c in ast.walk(gs.node) if isinstance(c, ast.Call) and isinstance(c.func, ast.Attribute) and c.func.attr == "get_source"
+                        and isinstance(c.func.value, ast.Attribute) and ast.unparse(c.func.value.value) == "self"})
+    if not consulted:
+        raise AnalysisError("anchor missing: the loaders DSDLTemplateLoader.get_source consults")
+    marks = {"_fsloader": ("_fsloader.searchpath", "_fsloader.list_templates"), "_package_loader": ("_package_loader.list_templates", "_templates_package_name")}
+    for en in (f, px.func(LOADERS_MOD, "DSDLTemplateLoader.list_templates")):
+        for ld in consulted:
+            def _head(st_):      # the statement itself, or the header of a loop (its body is visited on its own)
+                return ast.unparse(st_.iter) if isinstance(st_, ast.For) else ("" if isinstance(st_, (ast.If, ast.While, ast.Try, ast.With)) else ast.unparse(st_))
+            sites = [(st, g) for st, g in pyfront.walk_guarded(en.node.body) if any(mk in _head(st) for mk in marks.get(ld, (ld,)))]
+            if not sites:
+                ctx.ob(R, en.module.rel, f"{en.short} :: templates of self.{ld} are enumerated whenever that loader exists", False,
+                       f"get_source reads from self.{ld}, but this enumeration never lists its templates", en.node.lineno)
+                continue
+            st, g = sites[0]
+            bad = []
+            for t_, pol in g:
+                tx = ast.unparse(t_)
+                # a private predicate is judged by what it returns
+                if isinstance(t_, ast.Call) and isinstance(t_.func, ast.Attribute) and ast.unparse(t_.func.value) == "self" and en.cls is not None \
+                        and t_.func.attr in en.cls.methods and not t_.args:
+                    hrets = [ast.unparse(r.value) for r in ast.walk(en.cls.methods[t_.func.attr].node) if isinstance(r, ast.Return) and r.value is not None]
+                    if pol and hrets == [f"self.{ld} is not None"]:
+                        continue
+                    # a restriction that only repeats the one under which the loader is created in the first place excludes nothing
+                    if pol and _words(" ".join(hrets)) - {"False", "True", "None", ld.strip("_"), "self", "is", "not", "or", "and"} <= _creation_words(en.cls, ld):
+                        continue
+                    bad.append(f"{tx} -> returns {hrets}")
+                    continue
+                if (tx == f"self.{ld} is not None" and pol) or (tx == f"self.{ld} is None" and not pol) or tx.startswith("len(") or "TEMPLATE_SUFFIX" in tx or "suffix" in tx:
+                    continue
+                bad.append(("" if pol else "not ") + tx)
+            ctx.ob(R, en.module.rel, f"{en.short} :: templates of self.{ld} are enumerated whenever that loader exists", not bad,
+                   "" if not bad else f"enumerated only under {bad}: get_source falls back to self.{ld} whenever it exists, so a template it serves is read without being listed",
+                   st.lineno)
     rets = [r for r in ast.walk(f.node) if isinstance(r, ast.Return) and r.value is not None]
     if not rets:
         raise AnalysisError("anchor missing: return of DSDLTemplateLoader.get_templates")
